@@ -144,7 +144,7 @@ func execRtE2E(args []string) string {
 	out = append([]string{"enc=" + encS}, out...)
 
 	do := dapiOpts{chk: kvm["chk"] != "0", exp: kvm["exp"] != "0"}
-	dec := decoder.New(bytes.NewReader(dest.buf), do.options(dfac, nil)...)
+	dec := decoder.New(bytes.NewReader(dest.buf), do.options(dfac, nil, nil)...)
 	decS := "end"
 	var seqs []string
 	var decoded []*proto.FIT
@@ -272,7 +272,7 @@ func e2eReencode(decoded []*proto.FIT, arch byte, kvm map[string]string, vargs [
 		}
 		want = append(want, ws)
 	}
-	dec := decoder.New(bytes.NewReader(dest.buf), do.options(dfac, nil)...)
+	dec := decoder.New(bytes.NewReader(dest.buf), do.options(dfac, nil, nil)...)
 	k := 0
 	for dec.Next() {
 		fit, err := dec.Decode()
